@@ -453,6 +453,12 @@ fn routing_sweep(t: &mut Tally) {
                                     Form::NvLit(LitK::Bool, _) | Form::NestedLit(LitK::Bool) => darling::Error::unexpected_type("bool").to_string(),
                                     Form::NvLit(LitK::Str, _) | Form::NestedLit(LitK::Str) => darling::Error::unexpected_type("string").to_string(),
                                     Form::NvLit(LitK::Char, _) | Form::NestedLit(LitK::Char) => darling::Error::unexpected_type("char").to_string(),
+                                    // a non-literal expression is refused under its own kind (the whole
+                                    // expression's, seen through invisible groups), not its operand's
+                                    Form::NvExpr(_) => match &items[0] {
+                                        NestedMeta::Meta(syn::Meta::NameValue(nv)) => darling::Error::unexpected_expr_type(&nv.value).to_string(),
+                                        _ => String::new(),
+                                    },
                                     _ => String::new(),
                                 };
                                 if !want_msg.is_empty() && e.to_string() != want_msg {
